@@ -6,6 +6,7 @@ mod opspace;
 mod progspace;
 mod props;
 mod refserde;
+mod refcost;
 mod refsha;
 mod refvm;
 mod tree;
